@@ -13,6 +13,8 @@ from ..expr import show, walk
 from ..pathcond import calls_to, field_stores
 from . import C06
 
+from ..roles import upvar_index  # noqa: E402
+
 LEVEL = "proof"
 ATTR = "srtla_send::sender::packet_handler::attribute_nak"
 PCE = "srtla_send::sender::packet_handler::process_connection_events::{closure#0}"
@@ -261,13 +263,13 @@ def d5_who_records(ctx):
     if not f:
         return
     pa = ctx.pa(f)
-    si_ = [i for i, n in f.upvar_names.items() if n == "seq"]
+    si_ = [i for i in [upvar_index(f, "seq")] if i is not None]
     for (bb, t) in calls_to(f, stable=TR + "::insert"):
         nst = len(f.blocks[bb]["stmts"])
         args = [pa.fa.val_operand(a, (bb, nst)) for a in t["args"]]
         a_seq, a_id, a_t = args[1], args[2], args[3]
-        sel = [i for i, n in f.upvar_names.items() if n == "sel_idx"]
-        tm = [i for i, n in f.upvar_names.items() if n == "packet_time_ms"]
+        sel = [i for i in [upvar_index(f, "sel_idx")] if i is not None]
+        tm = [i for i in [upvar_index(f, "packet_time_ms")] if i is not None]
         ok_seq = bool(si_) and a_seq == ("field", ("as", ("upvar", si_[0]), "Some"), "core::option::Option", "0")
         ok_id = bool(sel) and is_field(a_id, "conn_id", CONN) and a_id[1][0] == "index" and a_id[1][2] == ("upvar", sel[0])
         if a_id[0] == "old":
